@@ -41,13 +41,15 @@ def select(tier, seed):
         key = (r["ok"], r["refuted_before_fix"], json.dumps(sorted(json.dumps(x) for x in r["sig"])))
         by.setdefault(key, r)
     keys = sorted(by)
-    if tier == "quick":
+    if True:
+        # quick: 20 + 24 signatures; thorough: 240 + 120 (compiling all 1 931 takes hours; every one of them is evaluated by TLC)
         rnd = random.Random(seed + 3)
         pre = [k for k in keys if k[1]]
         okk = [k for k in keys if k[0] and not k[1]]
         bad = [k for k in keys if not k[0]]
         rnd.shuffle(pre); rnd.shuffle(okk); rnd.shuffle(bad)
-        keys = sorted(pre[:20] + okk[:24] + bad[:8])
+        a, b = (20, 24) if tier == "quick" else (240, 120)
+        keys = sorted(pre[:a] + okk[:b] + bad[:8])
     stats = {"tlc": st, "graphs": len(gs), "signatures": len(by), "signatures_refuted_before_fix": len([k for k in by if k[1]]),
              "predicted_not_to_compile": len([k for k in by if not k[0]])}
     return [(by[k]["g"], by[k]["ok"], by[k]["refuted_before_fix"], i) for i, k in enumerate(keys)], stats
